@@ -15,6 +15,13 @@ fn main() {
                 2
             }
         },
+        Some("record") => match a.get(2).copied() {
+            Some("steps") => script::record_steps(a[3], a[4]),
+            other => {
+                eprintln!("unknown record suite {other:?}");
+                2
+            }
+        },
         _ => {
             eprintln!("usage: gvh replay <suite> <in> <out> | gvh record <suite> ...");
             2
